@@ -1,8 +1,8 @@
 """Configuration of ./check C05 (see pylib/props.py)."""
 CFG = dict(
-        coq=["props/C05.vo", "props/Compose.vo"],
+        coq=["props/C05.vo", "props/Compose.vo", "props/Compose4.vo"],
         tie=["gen/Tie_Code_Cols.vo"],
-        compose=['Compose_discard', 'Compose_merge_', 'Compose_collision', 'Compose_wide', 'Compose_keyless'],
+        compose=['Compose_discard', 'Compose_merge_', 'Compose_collision', 'Compose_wide', 'Compose_keyless', 'Compose_pool_flow_'],
         model_vo=["model/ColDiff.vo", "model/Merge.vo", "model/MergeSpec.vo"],
         extract="Ex_C05",
         level_text="PARTIAL BY PLAN. Proved: CompareColumns on duplicate-free column lists, any number of branches "
